@@ -108,7 +108,10 @@ def _run_unary_sync(
             # is the method's own and gets the ordinary error path.
             _validate_call_signature(info.name, kwargs, info.param_types, info.param_defaults, info.params_schema)
             _validate_params(info.name, kwargs, info.param_types)
-        except (pa.ArrowInvalid, TypeError, StopIteration, RpcError, VersionError) as exc:
+        except (pa.ArrowInvalid, OSError, TypeError, StopIteration, RpcError, VersionError) as exc:
+            # OSError: pyarrow reports a damaged IPC flatbuffer as ArrowIOError,
+            # which is OSError.  The body is in memory, so nothing else here
+            # raises it (external-location failures arrive as RuntimeError).
             raise _RpcHttpError(exc, status_code=HTTPStatus.BAD_REQUEST) from exc
         except Exception as exc:
             # Resolving an ExternalLocation is part of reading the request but
